@@ -284,6 +284,10 @@ class Policy:
         except (asyncio.CancelledError, KeyboardInterrupt, SystemExit):
             record_cancel(ctx)
             raise
+        except AbortRetryError:
+            # An abort raised from a backoff callback escapes retry.execute(): aborted, not failed.
+            record_cancel(ctx)
+            raise
         except RetryExhaustedError as exc:
             self._handle_exhausted_call(ctx, exc)
             raise
